@@ -48,6 +48,7 @@ BASE_CONFIGS = [
     {'ctx': None},
     {'ctx': None, 'enable_double_newline_paragraphs': False},
     {'ctx': 'every'},
+    {'ctx': 'every-unkspecials'},
     {'macro_escape_char': '|'},
     {'comment_start': '*'},
     {'forbidden_characters': '%a$'},
